@@ -154,7 +154,7 @@ class C19(Check):
     level_text = ('Seeded search over request/read/reset/resize histories against a model counter and over '
                   'reservoir operation histories under adversarial random draws; unbounded history space, sampled.')
     level_note = 'Trusted: the sequential dispatch model used to predict which routes a request reaches.'
-    required_probes = ('reservoir-overflow', 'reservoir-grow-after-overflow', 'fallthrough-counted', 'reset-read',
+    required_probes = ('two-stats-applications', 'request-inside-except-block', 'reservoir-overflow', 'reservoir-grow-after-overflow', 'fallthrough-counted', 'reset-read',
                        'negative-duration', 'null-route-405')
 
     # ---- generation --------------------------------------------------------
@@ -168,25 +168,35 @@ class C19(Check):
         c.shuffle(pats)
         table = [[p, c.choice([None, None, ['GET'], ['POST'], ['get', 'put']]), c.choice(sorted(OUTCOMES) + ['var'] * 6)]
                  for p in pats[:c.randint(1, 5)]]
+        second = None
+        if c.random() < 0.35:
+            # a second application with its own StatsMiddleware lives in the same process
+            pats2 = list(PATTERNS)
+            c.shuffle(pats2)
+            second = [[p, c.choice([None, ['GET'], ['POST']]), c.choice(sorted(OUTCOMES) + ['var'] * 4)] for p in pats2[:c.randint(1, 3)]]
         ops = []
         for _ in range(rng.randint(5, 60)):
             r = rng.random()
             if r < 0.66:
-                op = {'op': 'req', 'path': rng.choice(PATHS), 'method': rng.choice(['GET', 'GET', 'POST', 'HEAD', 'put', 'DELETE']),
+                op = {'op': 'req', 'app': (1 if second and rng.random() < 0.4 else 0),
+                      # served while the caller is handling an unrelated exception (e.g. a gateway retrying in an except block)
+                      'in_except': rng.random() < 0.12, 'path': rng.choice(PATHS), 'method': rng.choice(['GET', 'GET', 'POST', 'HEAD', 'put', 'DELETE']),
                       'o': rng.choice(sorted(OUTCOMES)), 'jitter': []}
                 if erng.random() < 0.2:
                     op['jitter'] = [erng.choice([0.0, 0.001, 1.5, -0.5, -30.0, 3600.0]) for _ in range(erng.randint(1, 6))]
                 ops.append(op)
             elif r < 0.82:
-                ops.append({'op': 'read'})
+                ops.append({'op': 'read', 'app': (1 if second and rng.random() < 0.4 else 0)})
             elif r < 0.9:
-                ops.append({'op': 'reset'})
+                ops.append({'op': 'reset', 'app': (1 if second and rng.random() < 0.4 else 0)})
             elif r < 0.95:
                 ops.append({'op': 'clock', 'dt': erng.choice([0.001, 1, 60, 86400, -5])})
             else:
                 ops.append({'op': 'resize', 'n': erng.choice([1, 2, 3, 8, 16384])})
-        ops.append({'op': 'read'})
-        return {'world': 'stats', 'kind': 'history', 'seed': seed, 'config': {'table': table}, 'ops': ops}
+        ops.append({'op': 'read', 'app': 0})
+        if second:
+            ops.append({'op': 'read', 'app': 1})
+        return {'world': 'stats', 'kind': 'history', 'seed': seed, 'config': {'table': table, 'second': second}, 'ops': ops}
 
     def gen_reservoir(self, seed, S):
         rng, erng = S['ops'], S['env']
@@ -299,14 +309,20 @@ class C19(Check):
             sm.patch(cstats, 'time', TimeProxy(clock))
             sm.patch(cstats, 'datetime', dtmod)
             sm.patch(cstats, 'random', DrawProxy())
-            mw = cstats.StatsMiddleware()
-            routes = [('/_st/', cstats.create_stats_app())] + [Route(p, make_ep(o), methods=m) for p, m, o in table]
-            app = Application(routes, middlewares=[mw])
-            model = {}
+            tables = [table] + ([plan['config']['second']] if plan['config'].get('second') else [])
+            apps, mws, models = [], [], []
+            for tb in tables:
+                m = cstats.StatsMiddleware()
+                rts = [('/_st/', cstats.create_stats_app())] + [Route(p, make_ep(o), methods=mm) for p, mm, o in tb]
+                apps.append(Application(rts, middlewares=[m]))
+                mws.append(m)
+                models.append({})
+            if len(apps) > 1:
+                res.probe('two-stats-applications')
 
-            def bump(p, k):
-                model.setdefault(p, {})
-                model[p][k] = model[p].get(k, 0) + 1
+            def bump(ai, p, k):
+                models[ai].setdefault(p, {})
+                models[ai][p][k] = models[ai][p].get(k, 0) + 1
 
             def report(ex, what, step):
                 if ex.escaped is not None or ex.code != 200:
@@ -318,16 +334,26 @@ class C19(Check):
 
             for step, op in enumerate(plan['ops']):
                 kind = op['op']
+                ai = op.get('app', 0) % len(apps)
+                app, mw, model, table = apps[ai], mws[ai], models[ai], tables[ai]
                 if kind == 'req':
                     hits = simulate(table, op['path'], op['method'], op.get('o', 'ok'))
                     clock.jitter = list(op.get('jitter') or [])
                     if any(j < 0 for j in clock.jitter):
                         res.fire('clock_jump_back_within_request')
                         res.probe('negative-duration')
-                    ex = call_app(app, make_environ(op['method'].upper(), op['path'] + '?o=' + op.get('o', 'ok')))
+                    env = make_environ(op['method'].upper(), op['path'] + '?o=' + op.get('o', 'ok'))
+                    if op.get('in_except'):
+                        res.probe('request-inside-except-block')
+                        try:
+                            raise LookupError('the caller is handling something else')
+                        except LookupError:
+                            ex = call_app(app, env)
+                    else:
+                        ex = call_app(app, env)
                     clock.jitter = []
                     for p, k in hits:
-                        bump(p, k)
+                        bump(ai, p, k)
                     if len(hits) > 1:
                         res.probe('fallthrough-counted')
                         res.nontrivial = True
@@ -355,16 +381,16 @@ class C19(Check):
                                     'step %d %s: report differs from the model counter\n (pattern, reported, expected): %s\n table: %s'
                                     % (step, kind, diff[:6], table), step)
                     if kind == 'read':
-                        bump('/_st/', '200')
+                        bump(ai, '/_st/', '200')
                     else:
                         model.clear()
-                        bump('/_st/reset', '200')
+                        bump(ai, '/_st/reset', '200')
                         res.probe('reset-read')
                 elif kind == 'clock':
                     clock.advance(op['dt'])
                     res.ev(step, 'clock', op['dt'])
                 elif kind == 'resize':
-                    for rt, by_status in list(mw.route_hits.items()):
+                    for rt, by_status in [x for m in mws for x in list(m.route_hits.items())]:
                         for status, rsv in list(by_status.items()):
                             rsv.resize(op['n'])
                     res.fire('reservoir_resize')
